@@ -327,6 +327,39 @@ pub fn search(tier: &str, seed: u64, s: &mut Search) {
                 }
             }
         }
+        // a user-space definition shared by several elements, with bounding-box paint INSIDE it, against one copy of
+        // the definition per element: sharing must not change how the inner paint is resolved
+        if i % 5 == 3 {
+            let k = 2 + rng.below(2) as usize;
+            let which = rng.below(3);
+            let inner = r##"<linearGradient id="ig"><stop offset="0" stop-color="red"/><stop offset="1" stop-color="blue"/></linearGradient><radialGradient id="iw"><stop offset="0" stop-color="white"/><stop offset="1" stop-color="#444"/></radialGradient>"##;
+            let def = |id: &str| match which {
+                0 => format!(r##"<pattern id="{id}" width="24" height="18" patternUnits="userSpaceOnUse"><rect width="14" height="10" fill="url(#ig)"/><circle cx="18" cy="12" r="5" fill="url(#ig)"/></pattern>"##),
+                1 => format!(r##"<mask id="{id}" maskUnits="userSpaceOnUse" x="0" y="0" width="200" height="160"><rect width="200" height="160" fill="url(#iw)"/></mask>"##),
+                _ => format!(r##"<filter id="{id}" filterUnits="userSpaceOnUse" x="0" y="0" width="200" height="160"><feImage xlink:href="#src"/><feComposite in2="SourceAlpha" operator="in"/></filter>"##),
+            };
+            let attr = ["fill", "mask", "filter"][which as usize];
+            let mut shared = String::new();
+            let mut copies = String::new();
+            let mut defs_copies = String::new();
+            for j in 0..k {
+                let (x, y, w, h) = (5 + 60 * j, 10 + 20 * j, rng.range(30, 55), rng.range(25, 50));
+                let own = if attr == "fill" { "" } else { r#" fill="green""# };
+                shared += &format!(r##"<rect x="{x}" y="{y}" width="{w}" height="{h}"{own} {attr}="url(#d)"/>"##);
+                copies += &format!(r##"<rect x="{x}" y="{y}" width="{w}" height="{h}"{own} {attr}="url(#d{j})"/>"##);
+                defs_copies += &def(&format!("d{j}"));
+            }
+            let src = r#"<rect id="src" width="120" height="100" fill="url(#ig)"/>"#;
+            let sa = format!("{HDR}<defs>{inner}{src}{}</defs>{shared}</svg>", def("d"));
+            let sb = format!("{HDR}<defs>{inner}{src}{defs_copies}</defs>{copies}</svg>");
+            if let (Some((_, qa)), Some((_, qb))) = (render(&sa, &o), render(&sb, &o)) {
+                s.case("shared-user-space-definition", &sa, qa.data().chunks(4).any(|p| p[3] != 0));
+                let (ok, why) = crate::rend::similar(&qa, &qb, 4);
+                if !ok {
+                    s.finding(&format!("oracle:C18:{}:shared-definition-resolves-inner-paint-differently", ["pattern", "mask", "filter"][which as usize]), &format!("{} elements sharing one user-space definition differ from the same elements with a copy each: {}", k, why), &sa);
+                }
+            }
+        }
         // a pattern with a viewBox: its content lives in viewBox coordinates whatever patternContentUnits says,
         // so the objectBoundingBox spelling must resolve exactly like the userSpaceOnUse spelling
         if i % 5 == 2 {
